@@ -46,7 +46,7 @@ fn count_seq(l: u32) -> u64 {
 }
 
 // ---- ladders
-const LADDER_KINDS: usize = 26;
+const LADDER_KINDS: usize = 32;
 fn ladder(kind: usize, d: usize) -> (String, &'static str) {
     let rep = |s: &str, n: usize| s.repeat(n);
     let w = |body: String| format!("fn dsp(){{ {body} }}");
@@ -78,6 +78,31 @@ fn ladder(kind: usize, d: usize) -> (String, &'static str) {
         23 => (w(format!("x{}", rep(".0", d))), "projection_chain"),
         24 => (w(format!("{}1", rep("let x = ", d))), "let_chain"),
         25 => (format!("fn f(x:{}float{}){{x}}", rep("[", d), rep("]", d)), "array_type"),
+        // cyclic and chained *references* of length d (passes that follow names until they stop)
+        26 => {
+            let mods: String = (0..d).map(|i| format!("mod m{i} {{\n  pub use m{}::x\n}}\n", (i + 1) % d)).collect();
+            (format!("{mods}fn dsp(){{ m0::x() }}"), "reexport_cycle")
+        }
+        27 => {
+            let mods: String = (0..d).map(|i| format!("mod m{i} {{\n  pub use m{}::x\n}}\n", i + 1)).collect();
+            (format!("{mods}mod m{d} {{\n  pub fn x(){{ 1.0 }}\n}}\nfn dsp(){{ m0::x() }}"), "reexport_chain")
+        }
+        28 => {
+            let al: String = (0..d).map(|i| format!("type alias A{i} = A{}\n", (i + 1) % d)).collect();
+            (format!("{al}fn dsp(){{\n  let v: A0 = 1.0\n  v\n}}"), "type_alias_cycle")
+        }
+        29 => {
+            let al: String = (0..d).map(|i| format!("type alias A{i} = A{}\n", i + 1)).collect();
+            (format!("{al}type alias A{d} = float\nfn dsp(){{\n  let v: A0 = 1.0\n  v\n}}"), "type_alias_chain")
+        }
+        30 => {
+            let fs: String = (0..d).map(|i| format!("fn f{i}(x){{ f{}(x) }}\n", (i + 1) % d)).collect();
+            (format!("{fs}fn dsp(){{ 0.0 }}"), "function_cycle")
+        }
+        31 => {
+            let us: String = (0..d).map(|i| format!("mod m{i} {{\n  use m{}::*\n  pub fn g{i}(){{ {i}.0 }}\n}}\n", (i + 1) % d)).collect();
+            (format!("{us}fn dsp(){{ m0::g0() }}"), "wildcard_use_cycle")
+        }
         _ => unreachable!(),
     }
 }
